@@ -45,16 +45,19 @@ Fixpoint pad_to (n : nat) (b : bytes) : bytes :=
 Definition two64 : N := 18446744073709551616.
 Definition two63 : Z := 9223372036854775808.
 
+(* the *big.Int arm of NotifyKey *)
+Definition norm_big (z : Z) : nkey :=
+  if ((0 <=? z) && (z <? Z.of_N two64))%Z then NkUint64 (Z.to_N z)
+  else if ((- two63 <=? z) && (z <? two63))%Z then NkInt64 z
+  else NkBigWords (Z.sgn z) (Z.abs_N z).
+
 Definition norm_key (k : rawkey) : nkey :=
   match k with
   | RkBool b => NkBool b
   | RkUint64 n => NkUint64 n
-  | RkNegint n => NkNegint n
+  | RkNegint n => if n =? 0 then NkNegint 0 else norm_big (- Z.of_N n)
   | RkInt64 z => if (0 <=? z)%Z then NkUint64 (Z.to_N z) else NkInt64 z
-  | RkBigInt z =>
-      if ((0 <=? z) && (z <? Z.of_N two64))%Z then NkUint64 (Z.to_N z)
-      else if ((- two63 <=? z) && (z <? two63))%Z then NkInt64 z
-      else NkBigWords (Z.sgn z) (Z.abs_N z)
+  | RkBigInt z => norm_big z
   | RkBytes b => NkUid (pad_to 16 b)
   | RkTime s => NkTimeString s
   | RkString b => NkString b
